@@ -109,7 +109,7 @@ def active_signature(dxi):
   return act, rows
 
 
-def check_transparency(ck, lib, gm, seeds, worst, eager_samples):
+def check_transparency(ck, lib, gm, seeds, worst, eager_samples, eager_step=0):
   mujoco, mjx, jax, jp = mjxload.load()
   from mujoco.mjx._src import smooth
   try:
@@ -131,16 +131,25 @@ def check_transparency(ck, lib, gm, seeds, worst, eager_samples):
   B = len(states)
   dxb = gx.batch_data(c, states)
 
-  def kin(m, d):
-    return smooth.com_pos(m, smooth.kinematics(m, d))
   # eager (op-by-op) evaluation of the Newton solver is very slow: the transparency relation is checked on a copy of the
   # model with few solver / line-search iterations and a non-zero tolerance, so that batch members leave the solver
   # while_loop at different iteration counts (vmap must mask them) and eager evaluation stays affordable.
   mx = c.mx.replace(opt=c.mx.opt.replace(iterations=6, ls_iterations=6, tolerance=jp.asarray(1e-6, dtype=c.mx.opt.tolerance.dtype)))
-  fns = [('step', mjx.step, True), ('kinematics', kin, False)]
+  from mujoco.mjx._src import forward as fwd_mod
+  from mujoco.mjx._src import sensor as sensor_mod
+
+  def smooth_pipeline(m, d):
+    """forward() without collision / constraint / solver: cheap enough for op-by-op (eager) evaluation"""
+    for fn in (smooth.kinematics, smooth.com_pos, smooth.camlight, smooth.tendon, smooth.crb, smooth.tendon_armature,
+               smooth.factor_m, smooth.transmission, sensor_mod.sensor_pos, fwd_mod.fwd_velocity, sensor_mod.sensor_vel,
+               fwd_mod.fwd_actuation, fwd_mod.fwd_acceleration):
+      d = fn(m, d)
+    return d
+  # (name, function, post-solver tolerance class, eager samples)
+  fns = [('step', mjx.step, True, eager_step), ('smooth', smooth_pipeline, False, eager_samples)]
   sigs = None
   timing = {}
-  for name, f, post in fns:
+  for name, f, post, n_eager in fns:
     jf = jax.jit(f)
     jvf = jax.jit(jax.vmap(f, in_axes=(None, 0)))
     t0 = time.time()
@@ -159,7 +168,7 @@ def check_transparency(ck, lib, gm, seeds, worst, eager_samples):
                     worst, post)
     timing[name + ':jit'] = time.time() - t0
     t0 = time.time()
-    for i in range(min(eager_samples, B)):
+    for i in range(min(n_eager, B)):
       dxi = jax.tree_util.tree_map(lambda x: x[i], dxb)
       with jax.disable_jit():
         oe = jax.device_get(f(mx, dxi))
@@ -454,32 +463,42 @@ def check_state_api(ck, lib, c, gm, s, s2, rng, nsig):
     pass
 
 
-def main(ck):
+RULE = ('models from vf.gen_mjx.models. (A) per model a batch of 3-6 states (odd ones settled by C steps): jit(vmap(f))[i] vs '
+        'jit(f)(x_i) for all i on every pytree leaf for f = step (solver limited to 6 iterations, tolerance 1e-6 so that batch '
+        'members leave the solver loop at different iterations) and f = forward-without-collision/solver; jit(f) vs eager f for '
+        '1-2 samples of the latter (eager step only in the thorough tier: minutes per call); non-trivial = batch whose states have '
+        '>1 distinct (active contact set, active row set, solver iterations); (B) wheel MjData after 0/15/60 steps -> put_data -> '
+        'get_data, bit-exact field comparison; non-trivial = ncon>=1 and nefc>=1; (C) make_data vs put_data(MjData(m)) leaf by '
+        'leaf; (D) all 2^14 signatures for state_size, full/empty/single-bit + random signatures for get_state/set_state vs the '
+        'tree C engine; non-trivial = >=2 components, >=1 non-empty. distinct by (oracle, model xml, state seed / signature).')
+ASSUMPTIONS = ['put_data/get_data/make_data operate on mujoco.MjModel/MjData of the installed wheel (3.13.0); the C state API '
+               'reference is the tree engine, guarded by the model-array skew check',
+               'placeholder values in unused contact slots (dist, geom ids) are not part of the make_data/put_data comparison',
+               'sub-domains excluded because of reported candidate findings (C44_FINDINGS=1 re-enables): ne/nf/nl after get_data '
+               '(static slot counts), data with an active contact at 0 < dist < margin (dropped by get_data)']
+
+
+def shard_main(ck, shard, nshards):
   mujoco, mjx, jax, jp = mjxload.load()
   lib = ck.lib('rel')
-  ck.rule = ('models from vf.gen_mjx.models. (A) per model a batch of 3-4 states (odd ones settled by C steps): '
-             'jit(vmap(f))[i] vs jit(f)(x_i) for all i and jit(f) vs eager f for 1-2 samples, f in {step, kinematics+com_pos, '
-             'forward for RK4}, every pytree leaf; non-trivial = batch whose states have >1 distinct active contact/limit row sets; '
-             '(B) wheel MjData after 0-60 steps -> put_data -> get_data, bit-exact field comparison; non-trivial = ncon>=1 and nefc>=1; '
-             '(C) make_data vs put_data(MjData(m)) leaf by leaf; (D) all 2^14 signatures for state_size, full/empty/single-bit + '
-             'random signatures for get_state/set_state vs the tree C engine; non-trivial = >=2 components, >=1 non-empty. '
-             'distinct by (oracle, model xml, state seed / signature).')
-  ck.assumptions = ['put_data/get_data/make_data operate on mujoco.MjModel/MjData of the installed wheel (3.13.0); the C state API '
-                    'reference is the tree engine, guarded by the model-array skew check',
-                    'placeholder values in unused contact slots (dist, geom ids) are not part of the make_data/put_data comparison',
-                    'data whose active contacts include one with 0 < dist < margin are excluded from the round trip (see report)']
   worst = collections.defaultdict(float)
-  t0 = time.time()
-  nA = ck.budget(3, 60)
-  nB = ck.budget(10, 400)
+  nA = max(1, -(-ck.budget(3, 48) // nshards))
+  nB = max(1, -(-ck.budget(12, 360) // nshards))
   batch = 3 if ck.quick else 6
+  t_start = time.time()
+  t_budget = float(os.environ.get('C44_TIME', 90 if ck.quick else 1200))
+  first = [True]
 
   def testA(case):
     gm, seeds = case
-    check_transparency(ck, lib, gm, seeds, worst, eager_samples=1 if ck.quick else 2)
-  ck.run_hypothesis(testA, st.tuples(gx.models(max_bodies=3, sensors=True, plane=True),
+    if time.time() - t_start > t_budget and ck.evaluations >= 2:
+      ck.discard('time-budget'); return
+    es = 1 if (not ck.quick and first[0]) else 0
+    first[0] = False
+    check_transparency(ck, lib, gm, seeds, worst, eager_samples=1 if ck.quick else 2, eager_step=es)
+  ck.run_hypothesis(testA, st.tuples(gx.models(max_bodies=2 if ck.quick else 3, sensors=True, plane=True),
                                      st.lists(mg.state_seed(), min_size=batch, max_size=batch, unique=True)),
-                    nA, name='jit-vmap', shrink=False)
+                    nA, name='jit-vmap-%d' % shard, shrink=False)
 
   def testBCD(case):
     gm, seeds, sd = case
@@ -501,8 +520,19 @@ def main(ck):
     check_state_api(ck, lib, c, gm, sts[0], sts[1], rng, nsig=(24 if ck.quick else 160))
   ck.run_hypothesis(testBCD, st.tuples(gx.models(max_bodies=4, sensors=True, userdata=True),
                                        st.lists(mg.state_seed(), min_size=3, max_size=3, unique=True), mg.state_seed()),
-                    nB, name='transfer', shrink=False)
+                    nB, name='transfer-%d' % shard, shrink=False)
+  ck.extra['worst'] = dict(worst)
+
+
+def main(ck):
+  from vf import mjxshard
+  ck.rule = RULE
+  ck.assumptions = ASSUMPTIONS
+  nshards = int(os.environ.get('C44_SHARDS', 3 if ck.quick else 6))
+  extra = mjxshard.run(ck, 'c44', nshards, timeout=(600 if ck.quick else 3600))
+  worst = mjxshard.merge_max(extra.get('worst', []))
   ck.extra['worst_rel_err_A'] = {k: float('%.3g' % v) for k, v in worst.items()}
+  ck.extra['shards'] = nshards
   ck.extra['tolerances'] = dict(A=TOL_A, A_solver=TOL_A_SOLVER, B='bit-exact', C='exact', D='exact')
 
 
